@@ -369,7 +369,15 @@ def check(case, rec):
       ia = [i for k in sorted(ka) for i in ka[k]]
       ib = [i for k in sorted(kb) for i in kb[k]]
       es = max(1.0, float(np.max(np.abs(a["force"]))))
-      check_close(rec, "ds:efc.force", b["force"][ib], a["force"][ia], 3e-3, scale=es, sig="densesparse:force", world=w)
+      # force = -D (J qacc - aref): the (accepted, <= 3e-3) difference between the two solves' qacc reappears multiplied by the row stiffness D
+      dq = np.abs(qb[w].astype(np.float64) - qa[w]) + 2.4e-7 * np.abs(qa[w])
+      Ja = np.abs(a["J"][ia].astype(np.float64))
+      allow = 3e-3 * es + 4.0 * np.abs(a["D"][ia].astype(np.float64)) * (Ja @ dq)
+      diff = np.abs(b["force"][ib].astype(np.float64) - a["force"][ia])
+      rec.err("ds:efc.force (beyond the stiffness-propagated qacc difference)", float(np.max(np.maximum(diff - allow + 3e-3 * es, 0.0)) / es))
+      if np.any(diff > allow):
+        j = int(np.argmax(diff - allow))
+        rec.violation(f"ds:efc.force row {j}: {float(b['force'][ib][j])!r} vs {float(a['force'][ia][j])!r}, more than 3e-3 * {es:.3g} + the stiffness-propagated qacc difference {allow[j] - 3e-3 * es:.3g}", sig="densesparse:force", world=w)
     check_close(rec, "ds:next_state", sb[w], sa[w], 3e-3, scale=max(1.0, float(np.max(np.abs(sa[w])))), sig="densesparse:state", world=w)
     rec.cls(f"ds:nefc>0:{a['nefc'] > 0}")
   if nt_point:
